@@ -253,6 +253,8 @@ def run(chk):
                 'three vnacal_new_t, delete/find/get_name/get_calibration_end, with deleted, reused, predefined, negative and out-of-range handles and indices; '
                 'every calibration built (also from handles deleted while in use) must correct a device')
     chk.extra['model_mismatches'] = nmis
+    if not chk.violations:
+        many_handles(chk, exe, rng, 3 if chk.tier == 'quick' else 40)
     # values of solved unknown parameters are those last solved: the same handle solved by two vnacal_new_t on different grids
     from props import c02
     if not chk.violations:
@@ -260,6 +262,67 @@ def run(chk):
     chk.samples = [[l[:90] for l in lines[:12]]]
     if broken and not chk.violations:
         chk.violation('obligation', 'proof/correspondence obligations that no longer check:\n' + '\n'.join(broken[:30]), nofail=True)
+
+
+def many_handles(chk, exe, rng, reps):
+    """one vnacal_new_t holding many parameters (its per-calibration table grows several times); every handle is deleted while the
+    vnacal_new_t uses it and then used there again: it must still be the same parameter (vnacal_delete_parameter(3))"""
+    for rep in range(reps):
+        typ = rng.choice(['T8', 'U8', 'E12'])
+        sc = calsim.Scenario(rng, typ, 1, 1, 1).begin()
+        for code in (calsim.SHORT, calsim.OPEN, calsim.MATCH):
+            sc.add_reflect(1, code)
+        nh = 70 if rep == 0 else rng.choice([9, 17, 24, 35])
+        gam = {}
+        for k in range(nh):
+            g = complex(rng.uniform(-0.8, 0.8), rng.uniform(-0.8, 0.8))
+            sc.lines.append('cal make_scalar %d %s' % (sc.c, vlib.c2h(g)))
+            gam[3 + k] = g
+        order = list(gam)
+        if rep == 0:
+            # handles that are congruent modulo 8, 16, 32, 64 next to each other: whenever the table grows, some share a chain
+            order.sort(key=lambda hd: (hd % 8, hd))
+        else:
+            rng.shuffle(order)
+
+        def add(hd):
+            S = [calsim.embed(1, [0], [[gam[hd]]], sc.others)]
+            sc.lines.append('cal add %d single_reflect %s %d %d' % (sc.n, sc.mtext(sc.meas(S)), hd, 1))
+        # every handle is deleted right after its first use (the vnacal_new_t keeps it); earlier ones are used again after every
+        # further addition, i.e. in every state of the growing table
+        done = []
+        for hd in order:
+            add(hd)
+            sc.lines.append('cal delete_parameter %d %d' % (sc.c, hd))
+            done.append(hd)
+            for h2 in rng.sample(done, min(len(done), 2)):
+                add(h2)
+        sc.solve().add_calibration()
+        dut = sc.random_dut()
+        sc.lines.append(sc.apply_line(0, dut))
+        iapply = len(sc.lines) - 1
+        sc.lines += ['cal free 0', 'cal live']
+        out, rc, err = vlib.run_lines(exe, sc.lines, timeout=300)
+        chk.evaluations += 1
+        tag = 'many handles (%d) in one %s vnacal_new_t' % (nh, typ)
+        if rc != 0 or len(out) != len(sc.lines):
+            chk.violation('sanitizer-many', '%s: crashed / sanitizer report:\n%s' % (tag, err[-1200:]), sc.lines[:len(out) + 1])
+            return
+        bad = [(l, x) for l, x in zip(sc.lines[:iapply + 1], out) if not x.startswith('ok')]
+        if bad:
+            chk.violation('held-handle', '%s: `%s` -> %s (a handle deleted while the vnacal_new_t uses it must keep working there)' % (
+                tag, bad[0][0][:60] + ' ... ' + bad[0][0][-12:], bad[0][1][:100]), sc.lines[:sc.lines.index(bad[0][0]) + 1])
+            return
+        ok, S = calsim.parse_apply(out[iapply], 1)
+        e = max(np.abs(S[f] - dut[f]).max() for f in range(len(dut))) if ok else float('inf')
+        if not e <= 1e-7:
+            chk.violation('many-apply', '%s: the calibration does not correct a device (error %.3e)' % (tag, e), sc.lines[:iapply + 1])
+            return
+        if out[-1] != 'ok live=0':
+            chk.violation('many-leak', '%s: allocations remain: %s' % (tag, out[-1]), sc.lines)
+            return
+        chk.count('many_handles_ok')
+        chk.distinct.add(('many', typ, nh))
 
 
 def replay(chk, path):
